@@ -19,6 +19,11 @@ spelling, the analysed module is first rewritten, in memory, by transformations 
   N5  new accumulation loops   `X = []; for T in IT: X.append(E)` is `X = [E for T in IT]` where a comprehension of the pinned function was unrolled
   N6  branch shapes            `if not T: B else: A`, `if not T: continue` + rest, `if T1 and T2:` are put back into the pinned function's own
                                `if T: A else: B`, `if T: rest`, `if T1: if T2:` where the pinned function has that test
+  N7  new loops over tables    `for a, b in ((x1, y1), (x2, y2)): BODY` over a literal table of names / constants the pinned function does not loop
+                               over is BODY[x1, y1]; BODY[x2, y2]
+  N8  formatting idiom         `'({:d},{:d})f'.format(a, b)` / an f-string whose template the pinned function formats with % is shown as
+                               `'(%d,%d)f' % (a, b)` (view only: the rules read templates in one spelling; the texts produced are the same for
+                               the value kinds the templates are used with)
   N3  renamed locals           locals of a function are renamed toward the names the pinned function uses for them.  The pairing is
                                found by aligning the statements of both versions (difflib over statement shapes with locals
                                abstracted) and voting; it is *applied* only if it is injective and the new name occurs nowhere in the
@@ -1154,9 +1159,21 @@ MUTATORS = ('append', 'extend', 'insert', 'pop', 'remove', 'clear', 'update', 's
 PURE_FUNCS = ('len', 'str', 'int', 'float', 'bool', 'tuple', 'abs', 'min', 'max', 'isinstance', 'hasattr', 'repr', 'range', 'np.prod', 'np.shape', 'np.ndim', 'np.isscalar')
 
 
+CONST_FUNCS = ('np.array', 'array', 'np.dtype', 'dtype', 'np.float32', 'np.float64', 'np.int32', 'np.int64', 'float', 'int')
+
+
 def _is_pure_call(x):
-    """call of a builtin that only looks at its (pure) arguments"""
-    return isinstance(x, ast.Call) and ast.unparse(x.func) in PURE_FUNCS and not any(isinstance(a, ast.Starred) for a in x.args)
+    """call of a builtin that only looks at its (pure) arguments, or a numpy scalar/array built from constants (optionally .astype(<constant>))"""
+    if not isinstance(x, ast.Call) or any(isinstance(a, ast.Starred) for a in x.args):
+        return False
+    if ast.unparse(x.func) in PURE_FUNCS:
+        return True
+    if ast.unparse(x.func) in CONST_FUNCS and all(isinstance(a, ast.Constant) for a in x.args) and all(isinstance(k.value, ast.Constant) for k in x.keywords):
+        return True
+    if isinstance(x.func, ast.Attribute) and x.func.attr == 'astype' and len(x.args) == 1 and isinstance(x.args[0], ast.Constant) and not x.keywords \
+            and _is_pure_call(x.func.value):
+        return True
+    return False
 
 
 def _is_access_path(e):
@@ -1327,7 +1344,9 @@ def loops_to_comprehensions(fn, pinfn):
         return sum(1 for n in ast.walk(f) if isinstance(n, kind))
     if not (count(fn, ast.For) > count(pinfn, ast.For) and count(fn, ast.ListComp) < count(pinfn, ast.ListComp)):
         return 0
-    pin_loops = set(ast.unparse(n.iter) for n in ast.walk(pinfn) if isinstance(n, ast.For))
+    # loops the pinned function itself accumulates with stay loops
+    pin_loops = set(ast.unparse(n.iter) for n in ast.walk(pinfn) if isinstance(n, ast.For) and len(n.body) == 1 and isinstance(n.body[0], ast.Expr)
+                    and isinstance(n.body[0].value, ast.Call) and isinstance(n.body[0].value.func, ast.Attribute) and n.body[0].value.func.attr == 'append')
     done = 0
 
     def visit(body):
@@ -1500,6 +1519,215 @@ def branch_shapes(fn, pinfn):
     return done
 
 
+# ------------------------------------------------------------------------------------------------ N7: new loops over literal tables
+def _simple_elt(e):
+    if isinstance(e, (ast.Name, ast.Constant)):
+        return True
+    if isinstance(e, ast.Attribute):
+        return _simple_elt(e.value)
+    if isinstance(e, ast.Subscript) and isinstance(e.slice, ast.Constant):
+        return _simple_elt(e.value)
+    return False
+
+
+def unroll_literal_loops(fn, pinfn):
+    """`for a, b in ((x1, y1), (x2, y2), ...): BODY` over a literal table of plain names / constants / attributes that the pinned
+    function does not have is the sequence BODY[x1, y1]; BODY[x2, y2]; ... (the table may be a local bound once to the literal).
+    Not done when the body rebinds a loop variable, leaves the loop (break / continue / return), or the variables are read later."""
+    if pinfn is None or uses_textual_names(fn):
+        return 0
+    pin_iters = set(ast.unparse(n.iter) for n in ast.walk(pinfn) if isinstance(n, ast.For))
+    pin_ids = all_ids(pinfn)
+    done = 0
+    # locals bound exactly once to a literal table
+    stores = {}
+    for n in ast.walk(fn):
+        if isinstance(n, ast.Name) and isinstance(n.ctx, (ast.Store, ast.Del)):
+            stores[n.id] = stores.get(n.id, 0) + 1
+    tables = {}
+    for st in ast.walk(fn):
+        if isinstance(st, ast.Assign) and len(st.targets) == 1 and isinstance(st.targets[0], ast.Name) and isinstance(st.value, (ast.Tuple, ast.List)) \
+                and stores.get(st.targets[0].id) == 1 and st.targets[0].id not in pin_ids:
+            tables[st.targets[0].id] = st
+
+    def visit(body):
+        nonlocal done
+        i = 0
+        while i < len(body):
+            st = body[i]
+            if isinstance(st, SCOPES):
+                i += 1
+                continue
+            if isinstance(st, ast.For) and not st.orelse:
+                it = st.iter
+                tname = None
+                if isinstance(it, ast.Name) and it.id in tables:
+                    tname = it.id
+                    it = tables[it.id].value
+                tg = st.target
+                names = [tg.id] if isinstance(tg, ast.Name) else ([e.id for e in tg.elts] if isinstance(tg, (ast.Tuple, ast.List)) and all(isinstance(e, ast.Name) for e in tg.elts) else None)
+                ok = isinstance(it, (ast.Tuple, ast.List)) and 2 <= len(it.elts) <= 16 and names is not None and ast.unparse(st.iter) not in pin_iters \
+                    and not _contains(st.body, (ast.Break, ast.Continue, ast.Return, ast.Yield, ast.YieldFrom))
+                rows = []
+                if ok:
+                    for e in it.elts:
+                        if isinstance(tg, ast.Name):
+                            ok = ok and _simple_elt(e)
+                            rows.append([e])
+                        else:
+                            ok = ok and isinstance(e, (ast.Tuple, ast.List)) and len(e.elts) == len(names) and all(_simple_elt(x) for x in e.elts)
+                            rows.append(list(e.elts) if ok else [])
+                if ok:
+                    rebound = any(isinstance(n, ast.Name) and n.id in names and isinstance(n.ctx, (ast.Store, ast.Del)) for s2 in st.body for n in ast.walk(s2))
+                    later = any(isinstance(n, ast.Name) and n.id in names for s2 in body[i + 1:] for n in ast.walk(s2))
+                    # names used by the table elements must not be rebound in the body (each row is evaluated when the loop starts)
+                    used = set(n.id for r in rows for e in r for n in ast.walk(e) if isinstance(n, ast.Name))
+                    clobber = any(isinstance(n, ast.Name) and n.id in used and isinstance(n.ctx, (ast.Store, ast.Del)) for s2 in st.body for n in ast.walk(s2))
+                    if tname is not None:
+                        # a named table holds the values its elements had when it was built: nothing it mentions may be rebound later
+                        tline = tables[tname].lineno
+                        for n in ast.walk(fn):
+                            if isinstance(n, ast.Name) and n.id in used and isinstance(n.ctx, (ast.Store, ast.Del)) and getattr(n, 'lineno', 0) >= tline:
+                                clobber = True
+                    if not rebound and not later and not clobber:
+                        out = []
+                        for r in rows:
+                            sub = _Subst(dict(zip(names, r)))
+                            for s2 in st.body:
+                                out.append(sub.visit(copy.deepcopy(s2)))
+                        body[i:i + 1] = out
+                        done += 1
+                        if tname is not None:
+                            # the table is no longer read: drop its definition when nothing else mentions it
+                            if not any(isinstance(n, ast.Name) and n.id == tname and isinstance(n.ctx, ast.Load) for n in ast.walk(fn)):
+                                for blk_owner in ast.walk(fn):
+                                    for fld in ('body', 'orelse', 'finalbody'):
+                                        b = getattr(blk_owner, fld, None)
+                                        if isinstance(b, list) and tables[tname] in b:
+                                            b.remove(tables[tname])
+                                            if not b:
+                                                b.append(ast.Pass())
+                        continue
+            for fld in ('body', 'orelse', 'finalbody'):
+                sub_ = getattr(st, fld, None)
+                if isinstance(sub_, list) and sub_ and isinstance(sub_[0], ast.stmt):
+                    visit(sub_)
+            for h in getattr(st, 'handlers', []) or []:
+                visit(h.body)
+            i += 1
+    visit(fn.body)
+    if done:
+        ast.fix_missing_locations(fn)
+    return done
+
+
+# ------------------------------------------------------------------------------------------------- N8: formatting idiom of a template
+import re as _re
+_FIELD = _re.compile(r'\{(\d*)(![sr])?(:([^{}]*))?\}')
+
+
+def _spec_to_percent(conv, spec):
+    spec = spec or ''
+    if conv == '!r':
+        return '%r' if spec == '' else None
+    if spec == '':
+        return '%s'
+    m = _re.match(r'^(0?\d*)(\.\d+)?([dfeEgsx])$', spec)
+    if not m:
+        return None
+    return '%' + m.group(1) + (m.group(2) or '') + m.group(3)
+
+
+def percent_form(node):
+    """`'a{:d}b'.format(x)` / f'a{x:d}b' as the %-formatting expression `'a%db' % (x,)`, or None when the fields are not plain
+    positional ones with a spec that % spells the same way"""
+    if isinstance(node, ast.Call) and isinstance(node.func, ast.Attribute) and node.func.attr == 'format' and isinstance(node.func.value, ast.Constant) \
+            and isinstance(node.func.value.value, str) and not node.keywords and not any(isinstance(a, ast.Starred) for a in node.args):
+        text = node.func.value.value
+        out, args, pos, auto = '', [], 0, 0
+        for m in _FIELD.finditer(text):
+            lit = text[pos:m.start()]
+            if '{' in lit.replace('{{', '') or '}' in lit.replace('}}', ''):
+                return None
+            out += lit.replace('{{', '{').replace('}}', '}').replace('%', '%%')
+            idx = int(m.group(1)) if m.group(1) else auto
+            auto += 1
+            if idx >= len(node.args):
+                return None
+            pc = _spec_to_percent(m.group(2), m.group(4))
+            if pc is None:
+                return None
+            out += pc
+            args.append(node.args[idx])
+            pos = m.end()
+        lit = text[pos:]
+        if '{' in lit.replace('{{', '') or '}' in lit.replace('}}', ''):
+            return None
+        out += lit.replace('{{', '{').replace('}}', '}').replace('%', '%%')
+        if not args:
+            return None
+    elif isinstance(node, ast.JoinedStr):
+        out, args = '', []
+        for v in node.values:
+            if isinstance(v, ast.Constant) and isinstance(v.value, str):
+                out += v.value.replace('%', '%%')
+            elif isinstance(v, ast.FormattedValue):
+                conv = {-1: None, 115: '!s', 114: '!r', 97: None}.get(v.conversion, None)
+                if v.conversion == 97:
+                    return None
+                spec = ''
+                if v.format_spec is not None:
+                    if not (isinstance(v.format_spec, ast.JoinedStr) and all(isinstance(x, ast.Constant) for x in v.format_spec.values)):
+                        return None
+                    spec = ''.join(x.value for x in v.format_spec.values)
+                pc = _spec_to_percent(conv, spec)
+                if pc is None:
+                    return None
+                out += pc
+                args.append(v.value)
+            else:
+                return None
+        if not args:
+            return None
+    else:
+        return None
+    right = args[0] if len(args) == 1 and not isinstance(args[0], ast.Tuple) else ast.Tuple(elts=args, ctx=ast.Load())
+    return ast.copy_location(ast.BinOp(left=ast.copy_location(ast.Constant(value=out), node), op=ast.Mod(), right=right), node)
+
+
+def formatting_idiom(fn, pinfn):
+    """str.format / f-string spellings of a template that the pinned function formats with % (same template text) are shown as the %
+    expression: the rules read templates (field widths, dtype strings) in that one spelling"""
+    if pinfn is None:
+        return 0
+    pin_templates = set(n.left.value for n in ast.walk(pinfn) if isinstance(n, ast.BinOp) and isinstance(n.op, ast.Mod) and isinstance(n.left, ast.Constant)
+                        and isinstance(n.left.value, str))
+    done = 0
+
+    class T(ast.NodeTransformer):
+        def visit_Call(self, n):
+            nonlocal done
+            self.generic_visit(n)
+            pf = percent_form(n)
+            if pf is not None and pf.left.value in pin_templates:
+                done += 1
+                return pf
+            return n
+
+        def visit_JoinedStr(self, n):
+            nonlocal done
+            self.generic_visit(n)
+            pf = percent_form(n)
+            if pf is not None and pf.left.value in pin_templates:
+                done += 1
+                return pf
+            return n
+    T().visit(fn)
+    if done:
+        ast.fix_missing_locations(fn)
+    return done
+
+
 # ----------------------------------------------------------------------------------------------------------------------- driver
 def normalize(relpath, text, tree):
     """rewrite `tree` (parsed from `text`) in place; -> statistics dict (empty when nothing was done)"""
@@ -1522,7 +1750,7 @@ def normalize(relpath, text, tree):
         stats['not_inlined'] = sorted(set('%s (%s)' % f for f in inl.failed))
     pfun = index_functions(pin)
     cfun = index_functions(tree)
-    nl = nr = nt = nc = nb = 0
+    nl = nr = nt = nc = nb = nu = nf = 0
     for q, (fn, body, cls) in cfun.items():
         p = pfun.get(q)
         if p is None:
@@ -1532,12 +1760,18 @@ def normalize(relpath, text, tree):
         # renaming first: a local that merely changed its name is not a new temporary
         nr += len(rename_toward(fn, p[0]))
         nl += inline_local_lambdas(fn, p[0])
+        nf += formatting_idiom(fn, p[0])
+        nu += unroll_literal_loops(fn, p[0])
         nb += branch_shapes(fn, p[0])
         nc += loops_to_comprehensions(fn, p[0])
         nt += propagate_new_temporaries(fn, p[0])
         nr += len(rename_toward(fn, p[0]))
     if nl:
         stats['local_helpers'] = nl
+    if nf:
+        stats['formats'] = nf
+    if nu:
+        stats['unrolled'] = nu
     if nb:
         stats['branches'] = nb
     if nc:
